@@ -294,7 +294,8 @@ func (m *collection) mergerMain(stackDirtyMid, stackDirtyBase *segmentStack,
 		if stackDirtyMid != nil && stackDirtyMid.isEmpty() {
 			// Do this only for idle-compactions.
 			atomic.AddUint64(&m.stats.TotMergerEmptyDirtyMid, 1)
-			m.m.Lock() // Allow an empty stackDirtyMid to kick persistence.
+			stackDirtyMid.addRef() // m.stackDirtyMid takes 1 refs.
+			m.m.Lock()             // Allow an empty stackDirtyMid to kick persistence.
 			stackDirtyMidPrev := m.stackDirtyMid
 			m.stackDirtyMid = stackDirtyMid
 			m.m.Unlock()
